@@ -6,7 +6,10 @@
 
 package webdav
 
-import "path/filepath"
+import (
+	"path/filepath"
+	"strings"
+)
 
 // Contracts, spec functions and lemma harnesses for the deductive verifier in /verif (govc):
 // second batch for webdav (C45 for arbitrary Dir values, C44 memFile.Write, C47, C43).
@@ -17,7 +20,9 @@ import "path/filepath"
 //
 // Precondition beyond the representation invariant pos >= 0: pos + len(p) <= 2^40 (a sane bound on
 // the size of an in-memory file). Without it the unit does not verify: make([]byte, pos, pos+len(p))
-// panics for huge pos (defect F8, see lemmaF8WriteHugePos, kept out of the green set).
+// panics for huge pos (defect F8, recorded, not repaired: remove the second `requires` and the
+// obligation webdav.(*memFile).Write#nopanic.makelen.1 fails with pos near MaxInt64).
+// p must not alias the file's own buffer (n.data is never handed out by the package: Read copies).
 //
 // A directory cannot be written. Otherwise all of p is written at pos: the file length becomes
 // max(old length, pos+len(p)); the bytes at [pos, pos+len(p)) are p; bytes before pos that existed
@@ -44,7 +49,8 @@ import "path/filepath"
 //@     else f.pos <= cap(f.n.data) && len(p) <= cap(f.n.data) - f.pos
 //@     else f.pos <= cap(f.n.data)
 //@   loop 1 invariant -1 <= rangeindex && rangeindex < len(hole)
-//@   loop 1 invariant forall k int :: 0 <= k && k <= rangeindex ==> hole[k] == 0
+//@   loop 1 invariant forall k int :: oldLen <= k && k <= oldLen + rangeindex ==> f.n.data[k] == 0
+//@   loop 1 invariant len(hole) == f.pos - oldLen && 0 <= oldLen && oldLen < f.pos && len(f.n.data) == f.pos
 //@   loop 1 invariant forall k int :: 0 <= k && k < oldLen ==> f.n.data[k] == old(f.n.data[k])
 //@   loop 1 modifies elems(hole)
 //@   modifies f.pos, f.n.data, f.n.modTime, elems(f.n.data), spare(f.n.data)
@@ -207,3 +213,134 @@ func lemmaInsideRootAt(root, q string, j int) (ok bool) {
 //@   ensures ghost(oscalls) != 1 ==> ghost(oscalls) == 0 && (err == os.ErrNotExist || err == os.ErrInvalid)
 //@   ensures ghost(oscalls) != 1 && len(specSlashClean(oldName)) > 1 && len(specSlashClean(newName)) > 1 ==> err == os.ErrNotExist
 //@   ensures ghost(oscalls) != 1 && len(specSlashClean(oldName)) > 1 && len(specSlashClean(newName)) > 1 && (forall i int :: 0 <= i && i < len(oldName) ==> oldName[i] != 0) ==> (exists i int :: 0 <= i && i < len(newName) && newName[i] == 0)
+
+
+// ---------------------------------------------------------------------------
+// C44: memFS.Rename, stated over the names the caller passed (entry values), normalised by the
+// specification's own slashClean (specSlashClean; path.Clean is a deterministic function, and with
+// `usebody slashClean` the code's two calls are the same terms - or are missing, which is what a
+// regression that drops the normalisation looks like).
+
+// specUnder(dir, p): p lies strictly below dir, spelled as dir + "/" + more.
+//
+//@ pure
+func specUnder(dir, p string) bool {
+	return strings.HasPrefix(p, dir+"/")
+}
+
+// Rename: names that normalise to the same path: nothing happens, nil. A new name below the old
+// one (renaming a directory into its own subtree): os.ErrInvalid. In both cases the tree is not
+// consulted (find is not called, no map is touched). When the tree is consulted, it is consulted for
+// exactly the two normalised names, old first, and these are different and the new one is not below
+// the old one. A call that does not consult the tree returns nil or os.ErrInvalid.
+//
+//@ func (*memFS).Rename(fs, ctx, oldName, newName) (err)
+//@   requires fs != nil
+//@   noframe
+//@   partial nopanic
+//@   usebody slashClean
+//@   ghost finds += 1 at call find
+//@   assert at call find: !specUnder(specSlashClean(old(oldName)), specSlashClean(old(newName)))
+//@   assert at call find: specSlashClean(old(oldName)) != specSlashClean(old(newName))
+//@   assert at call find#1: $fullname == specSlashClean(old(oldName))
+//@   assert at call find#2: $fullname == specSlashClean(old(newName))
+//@   ensures specSlashClean(oldName) == specSlashClean(newName) ==> err == nil && ghost(finds) == 0
+//@   ensures specSlashClean(oldName) != specSlashClean(newName) && specUnder(specSlashClean(oldName), specSlashClean(newName)) ==> err == os.ErrInvalid && ghost(finds) == 0
+//@   ensures ghost(finds) == 0 ==> err == nil || err == os.ErrInvalid
+//@   ensures ghost(finds) == 0 ==> specSlashClean(oldName) == specSlashClean(newName) || specUnder(specSlashClean(oldName), specSlashClean(newName))
+
+
+// ---------------------------------------------------------------------------
+// C43: memLS, step rules and refusals.
+
+// canCreate's step function: the closure that walkToRoot calls for the name itself (first == true)
+// and then for every ancestor (first == false). m and zeroDepth are the closure's captured variables
+// (arbitrary cells here). The decision is RFC 4918's rule: no node registered under the name: no
+// conflict. The resource itself: free exactly when it carries no token and the request has zero
+// depth (a registered node without token means a descendant is locked, which conflicts with an
+// infinite-depth request). An ancestor: conflicts exactly when it carries a token and has infinite
+// depth. Nothing is modified.
+//
+//@ func (*memLS).canCreate$1(name0, first) (ok)
+//@   requires m != nil
+//@   ensures m.byName[name0] == nil ==> ok
+//@   ensures m.byName[name0] != nil && first ==> (ok <==> (m.byName[name0].token == "" && zeroDepth))
+//@   ensures m.byName[name0] != nil && !first ==> (ok <==> !(m.byName[name0].token != "" && !m.byName[name0].details.ZeroDepth))
+
+// hold marks a node as held by a Confirm call: it must not be held already (the code panics
+// otherwise), afterwards it is (Confirm uses the body, so that other nodes' flags are seen unchanged). The heap bookkeeping
+// (container/heap.Remove) is abstracted: it may change anything except held flags (checked on the
+// call graph: nothing reachable from it writes memLSNode.held).
+//
+//@ func (*memLS).hold(m, n)
+//@   havoccalls except memLSNode.held
+//@   requires m != nil && n != nil && !n.held
+//@   ensures n.held
+//@   noframe
+
+// Unlock: the lock is removed only when the token is registered (after expired locks have been
+// collected; the node removed is the one registered under the token) and its node is not held by a
+// Confirm call; otherwise nothing is removed and the error
+// is ErrNoSuchLock or ErrLocked. collectExpiredNodes and remove are abstracted (any effect except
+// on held flags, checked on the call graph).
+//
+//@ func (*memLS).Unlock(m, now, token) (err)
+//@   havoccalls except memLSNode.held
+//@   requires m != nil
+//@   ghost removes += 1 at call remove
+//@   assert at call remove: $n != nil && !$n.held && ghost(removes) == 0
+//@   assert at call remove: $n == m.byToken[token]
+//@   ensures err == nil <==> ghost(removes) == 1
+//@   ensures err != nil ==> ghost(removes) == 0 && (err == ErrNoSuchLock || err == ErrLocked)
+//@   noframe
+
+// Refresh: the expiry heap is touched and the duration changed only when the token is registered
+// (after expired locks have been collected) and its node is not held; otherwise the result is the
+// zero LockDetails with ErrNoSuchLock or ErrLocked and neither heap.Remove nor heap.Push is called.
+// A successful call returns details with the new duration, and pushes the node on the heap exactly
+// when the new duration is finite.
+//
+//@ func (*memLS).Refresh(m, now, token, duration) (d, err)
+//@   havoccalls except memLSNode.held
+//@   requires m != nil
+//@   ghost heapops += 1 at call heap.Remove
+//@   ghost pushes += 1 at call heap.Push
+//@   assert at call heap.Remove: n != nil && !n.held
+//@   assert at call heap.Push: n != nil && !n.held && duration >= 0 && ghost(pushes) == 0
+//@   ensures err != nil ==> (err == ErrNoSuchLock || err == ErrLocked) && ghost(heapops) == 0 && ghost(pushes) == 0
+//@   ensures err != nil ==> d.Root == "" && d.Duration == 0 && d.OwnerXML == "" && !d.ZeroDepth
+//@   ensures err == nil ==> (ghost(pushes) == 1 <==> duration >= 0)
+//@   noframe
+
+// Confirm: a node is held only if lookup returned it (so it was not held: a confirmed lock cannot be
+// confirmed again until released), never twice in one call; if a named resource has no matching
+// unheld lock the call fails with ErrConfirmationFailed, holds nothing and returns no release
+// function.
+//
+//@ func (*memLS).Confirm(m, now, name0, name1, conditions) (release, err)
+//@   havoccalls except memLSNode.held
+//@   usebody hold
+//@   requires m != nil
+//@   ghost holds += 1 at call hold
+//@   assert at call hold: $n != nil && !$n.held
+//@   ensures err != nil ==> err == ErrConfirmationFailed && ghost(holds) == 0
+//@   ensures err == nil ==> ghost(holds) <= 2
+//@   ensures err == nil && name0 != "" ==> ghost(holds) >= 1
+//@   noframe
+
+// collectExpiredNodes: every expiry test is time.Time.Before(now, expiry of the current heap
+// minimum); remove is called only on the current heap minimum and only directly after that test said
+// "now is not before its expiry" (the lock has expired); the loop ends with an empty heap or directly
+// after a test that said "not yet expired" (ghost counter fresh: number of tests that returned
+// true). remove is abstracted (any effect on the heap).
+//
+//@ func (*memLS).collectExpiredNodes(m, now)
+//@   havoccalls
+//@   requires m != nil
+//@   ghost fresh += 1 after call Before when $r0
+//@   loop 1 invariant m != nil && ghost(fresh) == 0
+//@   assert at call Before: len(m.byExpiry) > 0 && $t == now && $u == m.byExpiry[0].expiry && ghost(fresh) == 0
+//@   assert at call remove: len(m.byExpiry) > 0 && $n == m.byExpiry[0] && ghost(fresh) == 0
+//@   ensures len(m.byExpiry) == 0 || ghost(fresh) == 1
+//@   partial nopanic
+//@   noframe
